@@ -70,25 +70,25 @@ impl<'a> Autocompletion<'a> {
 
         // compare new autocompletion to existing and keep
         // only common prefix
-        let len = match self.autocompleted() {
+        let mut len = match self.autocompleted() {
             Some(current) => utils::common_prefix_len(autocompletion, current),
             None => autocompletion.len(),
         };
 
-        if len > self.buffer.len() {
-            // if buffer is full with this autocompletion, there is not much sense in doing it
-            // since user will not be able to type anything else
-            // so just do nothing with it
-        } else {
-            self.partial =
-                self.partial || len < autocompletion.len() || self.autocompleted.is_some();
-            // SAFETY: we checked that len is no longer than buffer len (and is at most autocompleted len)
-            // and these two buffers do not overlap since mutable reference to buffer is exclusive
-            unsafe {
-                utils::copy_nonoverlapping(autocompletion.as_bytes(), self.buffer, len);
-            }
-            self.autocompleted = Some(len);
-        };
+        // if autocompletion doesn't fit into buffer, it still must be taken into account
+        // (otherwise other variants would look like the only ones),
+        // so keep only whole chars that fit and mark autocompletion as partial
+        while len > self.buffer.len() || !autocompletion.is_char_boundary(len) {
+            len -= 1;
+        }
+
+        self.partial = self.partial || len < autocompletion.len() || self.autocompleted.is_some();
+        // SAFETY: we checked that len is no longer than buffer len (and is at most autocompleted len)
+        // and these two buffers do not overlap since mutable reference to buffer is exclusive
+        unsafe {
+            utils::copy_nonoverlapping(autocompletion.as_bytes(), self.buffer, len);
+        }
+        self.autocompleted = Some(len);
     }
 }
 
